@@ -1,14 +1,34 @@
 ----------------------------- MODULE Trace_C03 -----------------------------
+(* Judge of run-time observations of flattened struct conversions (real proc-macro, executed). *)
 EXTENDS O2OFlatten, Json, IOUtils
 Rec == ndJsonDeserialize(IOEnv.TRACE)
 VARIABLES l
 ObsSet(r) == {r.obs[i] : i \in DOMAIN r.obs}
 Others(r) == {r.others[i] : i \in DOMAIN r.others}
-Conforms(r) == ObsSet(r) = Expected(r.in, r.k, Others(r))
+C03Symptom(r) ==
+  IF r.res # "ok" THEN "unexpected_error"
+  ELSE LET E == Expected(r.in, r.k, Others(r))  O == ObsSet(r) IN
+       IF O = E THEN "-"
+       ELSE IF {w.leaf : w \in O} # {w.leaf : w \in E} THEN "leaf_set_differs"
+       ELSE IF \E w \in E : w \notin O /\ w.val = "P." \o w.leaf THEN "unmapped_leaf_clobbered"
+       ELSE IF \E w \in O : w \notin E /\ w.val = "P." \o w.leaf THEN "mapped_leaf_not_written"
+       ELSE "wrong_value"
+PoisonIdx(vec) == CHOOSE i \in 1..9 : vec = "poison" \o ToString(i)
+C07pSymptom(r) == LET i == PoisonIdx(r.vec) IN
+  IF i \in Sites(r.in) THEN (IF r.res = "err" /\ r.errn = i THEN "-" ELSE IF r.res = "ok" THEN "error_swallowed" ELSE "wrong_error")
+  ELSE (IF r.res = "ok" THEN "-" ELSE "spurious_error")
+\* a compile failure: the algorithm model predicts exactly the inputs for which a nested struct is constructed twice (rustc E0062)
+CFSymptom(r) == IF r.e0062 THEN "nested_struct_built_twice" ELSE "does_not_compile"
+\* a compiled case for which the model predicts a double construction: the model does not describe the code
+OKSymptom(r) == IF DupConstruct(FieldsOf(r.in)) THEN "model_predicts_dup_but_compiles" ELSE "-"
+Symptom(r) == CASE r.prop = "C03" -> C03Symptom(r) [] r.prop = "C07p" -> C07pSymptom(r) [] r.prop = "CF" -> CFSymptom(r) [] r.prop = "OK" -> OKSymptom(r)
+Report(r) == CASE r.prop \in {"CF", "OK"} -> [case |-> r.case, prop |-> r.prop, symptom |-> Symptom(r), cell |-> Cell(r.in, "any", FALSE), errors |-> r.errors]
+               [] r.prop = "C03" -> [case |-> r.case, prop |-> r.prop, symptom |-> Symptom(r), cell |-> Cell(r.in, r.k, r.f),
+                                     expected |-> Expected(r.in, r.k, Others(r)), observed |-> ObsSet(r)]
+               [] OTHER -> [case |-> r.case, prop |-> r.prop, symptom |-> Symptom(r), cell |-> Cell(r.in, r.k, r.f), vec |-> r.vec, res |-> r.res, errn |-> r.errn]
 Init == l = 1
 Consume == /\ l <= Len(Rec)
-           /\ (IF Conforms(Rec[l]) THEN TRUE
-               ELSE PrintT(<<"MISMATCH", l, Rec[l].case, Rec[l].in, Rec[l].k, Rec[l].f, "expected", Expected(Rec[l].in, Rec[l].k, Others(Rec[l])), "observed", ObsSet(Rec[l])>>))
+           /\ (IF Symptom(Rec[l]) = "-" THEN TRUE ELSE PrintT(<<"MISMATCH", ToJson(Report(Rec[l]))>>))
            /\ l' = l + 1
 Spec == Init /\ [][Consume]_l
 Accepted == TLCGet("stats").diameter - 1 = Len(Rec)
